@@ -229,9 +229,9 @@ func (s *State) rootTerm(a *Addr) string {
 
 func (s *State) load(a *Addr) V {
 	w := s.vc.w
-	if s.volatile != nil {
+	if strings.HasPrefix(a.Ref.T, "gvar_") || s.volatile != nil {
 		key := a.Heap + "|" + a.Ref.T
-		if s.volatile[key] {
+		if strings.HasPrefix(a.Ref.T, "gvar_") || s.volatile[key] {
 			// interference: the value is whatever another goroutine last wrote
 			cur := s.heapGet(a.Heap, a.HSort)
 			_, inner := splitArraySort(a.HSort)
